@@ -21,7 +21,7 @@ pub fn run<C: Suite>(ctx: &mut Ctx) {
     if !C::TAPROOT {
         return;
     }
-    let need: u64 = ctx.scale(4, 16);
+    let need: u64 = ctx.scale(4, 64);
     let roots = ["absent", "empty", "32-bytes", "5-bytes", "100-bytes", "untweaked"];
     for source in ["dealer", "dkg"] {
         for root in roots {
